@@ -74,7 +74,38 @@ def r_source(cls: str, seq, bindings):
     return g
 
 
+def run_dataset_as_triples(case: dict) -> list[tuple[str, str]]:
+    """An rdflib Dataset written as a stream of (unnamed) graphs: TripleStream, logical GRAPHS."""
+    import rdflib  # noqa: PLC0415
+
+    preset = tuple(case["preset"])
+    bindings = [BINDINGS[i] for i in case["bindings"]]
+    seq = [T.from_json(s) for s in case["seq"]]
+    src = r_source("quad", seq, bindings)
+    opts = DR.make_options("triple", preset, 2, True, 3, ns=True, generalized=False,
+                           rdf_star=False)
+    out = io.BytesIO()
+    try:
+        src.serialize(destination=out, format="jelly", stream=DR.r_stream("triple", opts),
+                      options=opts)
+        _, per = jspec.decode_frames(jwire.read_delimited(out.getvalue()))
+    except Exception as e:  # noqa: BLE001
+        return [("dataset-as-graphs-raised", f"{type(e).__name__}: {e}")]
+    wire_ns = [(n, i[1]) for n, i in jspec.namespaces(per)]
+    src_ns = [(p, str(u)) for p, u in src.namespaces()]
+    fails = []
+    if wire_ns != src_ns:
+        fails.append(("wire-declarations", f"Dataset written as a GRAPHS-logical TRIPLES stream "
+                                           f"declares {wire_ns}, source bound {src_ns}"))
+    got = {T.norm_st(x) for x in jspec.statements(per)}
+    if got != {T.norm_st(x[:3]) for x in seq}:
+        fails.append(("statements-changed", f"Dataset as graphs: triples {got}"))
+    return fails
+
+
 def run_case(case: dict) -> list[tuple[str, str]]:
+    if case.get("variant") == "dataset-as-triples":
+        return run_dataset_as_triples(case)
     api, cls = case["api"], case["cls"]
     preset = tuple(case["preset"])
     bindings = [BINDINGS[i] for i in case["bindings"]]
@@ -236,6 +267,12 @@ def shard(job) -> dict:
                 acc.nontrivial += 1
             for kind, msg in run_case(case):
                 acc.violation({"fail": kind, "api": api}, f"{msg} case={case}", case)
+            if api == "rdflib" and cls == "quad" and seq:
+                c2 = {**case, "variant": "dataset-as-triples"}
+                acc.evals += 1
+                for kind, msg in run_case(c2):
+                    acc.violation({"fail": kind, "api": api, "variant": "dataset-as-triples"},
+                                  f"{msg} case={c2}", c2)
     acc.sample({"api": api, "cls": cls, "preset": preset,
                 "bindings": [BINDINGS[i] for i in blists[lo]] if lo < len(blists) else []}, cap=1)
     return acc.out()
